@@ -696,6 +696,8 @@ def session_scripts(cls, h, w, rng, n_random=3, pairs=False):
         yield "rand%d" % j, sc
     if pairs:
         for a in ops + once:
+            if a[-1] == "SL":
+                continue    # (posting the loop constraint is costly: it takes part as the middle call only)
             for b in ops + once:
                 if not (a in once and b in once):
                     yield "pair", ([a, b, a] if a not in once else [a, b, b])
@@ -888,6 +890,14 @@ def check_frame(ctx, tag, f, h, w, anchor=None, depth=0):
                     bad("getitem-%s:%d,%d" % (kn, Y, X), "frame[key] with the coordinates given as a %s differs from frame[Y, X]" % kn,
                         coords=[Y, X], with_tuple=name(r[1]), got=name(r2[1]))
     # cell_neighbors / vertex_neighbors
+    at_point = {}       # lattice point -> variables of the segments ending there
+    for sg in segs:
+        for pt in sg:
+            at_point.setdefault(pt, []).append(var[sg])
+    around = {}         # cell -> variables of the segments joining two of its corners
+    for c in cells:
+        cs = sorted(_corners(c))
+        around[c] = [var[frozenset((a, b))] for a in cs for b in cs if a < b and abs(a[0] - b[0]) + abs(a[1] - b[1]) == 1]
     cwin = [(y, x) for y in range(-3, h + 4) for x in range(-3, w + 4)]
     if depth == 0:
         seen = set(cwin)
@@ -907,7 +917,7 @@ def check_frame(ctx, tag, f, h, w, anchor=None, depth=0):
             ctx.prop_case("cell_neighbors", (tag, h, w, y, x, form, depth))
             r = vlib.guarded(lambda: f.cell_neighbors(*args, **kwargs))
             if (y, x) in cells:
-                exp = [var[sg] for sg in segs if sg <= _corners((y, x))]
+                exp = around[(y, x)]
                 if r[0] != "ok" or type(r[1]) is not BoolArray1D or len(exp) != 4 or not _same(r[1].data, exp):
                     bad("cell_neighbors:%d,%d" % (y, x), "cell_neighbors is not the set of the 4 sides of the cell",
                         cell=[y, x], expected=sorted(name(v) for v in exp), got=name(r[1]) if r[0] != "ok" else [name(v) for v in r[1]])
@@ -918,7 +928,7 @@ def check_frame(ctx, tag, f, h, w, anchor=None, depth=0):
                 args = (iter((y, x)),)
             r = vlib.guarded(lambda: f.vertex_neighbors(*args, **kwargs))
             if (y, x) in pts:
-                exp = [var[sg] for sg in segs if (y, x) in sg]
+                exp = at_point.get((y, x), [])
                 if r[0] != "ok" or type(r[1]) is not BoolArray1D or not _same(r[1].data, exp):
                     bad("vertex_neighbors:%d,%d" % (y, x), "vertex_neighbors is not the set of segments ending at the point",
                         point=[y, x], expected=sorted(name(v) for v in exp), got=name(r[1]) if r[0] != "ok" else [name(v) for v in r[1]])
@@ -1162,7 +1172,7 @@ def given_anchor(cls, h, w, given):
     return out
 
 
-PAIR_SIZES = {"F": ((1, 1), (2, 3), (0, 2), (2, 0)), "I": ((2, 3), (3, 1))}
+PAIR_SIZES = {"F": ((1, 1), (2, 3), (0, 2)), "I": ((2, 3),)}
 
 
 def search_one(ctx, cls, h, w):
